@@ -367,12 +367,95 @@ func worker(id string, args []string) int {
 	if err := json.Unmarshal([]byte(args[0]), &v); err != nil {
 		panic(err)
 	}
+	if v.Plugin == loaderChain {
+		runLoaderChain(r, id, v)
+		return reg.WorkerExit(r)
+	}
 	if v.Plugin == "range" && len(v.Args) == 1 && v.Args[0] == roHistories {
 		lease.ReadOnlyDB(r, id, 2)
 		return reg.WorkerExit(r)
 	}
 	runVec(r, id, v)
 	return reg.WorkerExit(r)
+}
+
+// loaderChain marks a C19 configuration that is a list of built-in plugins (Args = their names)
+// in ONE section, loaded through the real plugins.LoadPlugins - including plugins that have no
+// set-up function for that protocol (skipped with a warning by the loader) and are followed by
+// others. Each plugin gets valid arguments (of its own family if it has none for this one).
+const loaderChain = "@chain-through-LoadPlugins"
+
+func runLoaderChain(r *ev.Run, id string, v Vec) {
+	registerBuiltins()
+	a4, a6 := ValidArgs(srv.Scratch())
+	a4["server_id"], a6["server_id"] = []string{"10.10.10.1"}, []string{"LL", "00:de:ad:be:ef:00"}
+	var pcs []config.PluginConfig
+	for _, n := range v.Args {
+		own, other := a4, a6
+		if v.Proto == 6 {
+			own, other = a6, a4
+		}
+		args, ok := own[n]
+		if !ok {
+			args = other[n]
+		}
+		pcs = append(pcs, config.PluginConfig{Name: n, Args: args})
+	}
+	conf := &config.Config{}
+	if v.Proto == 4 {
+		conf.Server4 = &config.ServerConfig{Plugins: pcs}
+	} else {
+		conf.Server6 = &config.ServerConfig{Plugins: pcs}
+	}
+	var hs4 []handler.Handler4
+	var hs6 []handler.Handler6
+	var err error
+	pan := func() (p string) {
+		defer func() {
+			if e := recover(); e != nil {
+				p = fmt.Sprint(e)
+			}
+		}()
+		hs4, hs6, err = plugins.LoadPlugins(conf)
+		return ""
+	}()
+	class := fmt.Sprintf("loader-chain/v%d/len=%d", v.Proto, len(v.Args))
+	if pan != "" {
+		r.Violate(id+"/loader-chain/load-panic", fmt.Sprintf("LoadPlugins panicked on the chain %v (server%d): %s", v.Args, v.Proto, pan), Case{Vec: v})
+		return
+	}
+	if err != nil {
+		r.Eval(class + "/rejected")
+		return
+	}
+	r.Eval(class + "/accepted")
+	if v.Proto == 4 {
+		for _, rq := range battery4(nil) {
+			out := srv.Run4(net.Interface{}, hs4, rq.bytes, 1, &net.UDPAddr{IP: net.IPv4(10, 9, 9, 9), Port: 68})
+			if out.Panic != "" {
+				r.Violate(id+"/loader-chain/handler-panic", fmt.Sprintf("server4 plugins %v accepted by the loader (%d handlers), then handling a request panicked: %s", v.Args, len(hs4), firstLine(out.Panic)), Case{v, hex.EncodeToString(rq.bytes), rq.desc})
+				return
+			}
+			for _, s := range out.Sent {
+				if _, perr := dhcpv4.FromBytes(s.Data); perr != nil {
+					r.Violate(id+"/loader-chain/reply-unparseable", fmt.Sprintf("server4 plugins %v: reply does not parse: %v", v.Args, perr), Case{v, hex.EncodeToString(rq.bytes), rq.desc})
+				}
+			}
+		}
+		return
+	}
+	for _, rq := range battery6(nil) {
+		out := srv.Run6(net.Interface{}, hs6, rq.bytes, 1, &net.UDPAddr{IP: net.ParseIP("2001:db8::99"), Port: 546})
+		if out.Panic != "" {
+			r.Violate(id+"/loader-chain/handler-panic", fmt.Sprintf("server6 plugins %v accepted by the loader (%d handlers), then handling a request panicked: %s", v.Args, len(hs6), firstLine(out.Panic)), Case{v, hex.EncodeToString(rq.bytes), rq.desc})
+			return
+		}
+		for _, s := range out.Sent {
+			if _, perr := dhcpv6.FromBytes(s.Data); perr != nil {
+				r.Violate(id+"/loader-chain/reply-unparseable", fmt.Sprintf("server6 plugins %v: reply does not parse: %v", v.Args, perr), Case{v, hex.EncodeToString(rq.bytes), rq.desc})
+			}
+		}
+	}
 }
 
 // roHistories marks the stateful C19 scenario: the range plugin restarted on a lease database
@@ -936,6 +1019,24 @@ func run(r *ev.Run, id string) {
 		vecs = c19Vectors(scratch, !r.Quick())
 		r.Rule("plus, for the range plugin (the one built-in with persistent state): every history of <= 2 requests (3 clients, DISCOVER/REQUEST), a restart on the lease database opened read-only (environment fault; a start-up error is accepted), then every history of <= 2 further requests; oracle: no panic.")
 		vecs = append(vecs, Vec{Plugin: "range", Proto: 4, Args: []string{roHistories}})
+		r.Rule("plus chains through the real loader: every ordered pair (thorough: every triple with server_id first) of the 15 built-in plugins in one section, for both protocols - plugins without a set-up function for that protocol are skipped by the loader and may be followed by others; each accepted chain is driven with the request battery through HandleMsg4/6: no panic, replies parse.")
+		var names []string
+		for n := range Plugins {
+			names = append(names, n)
+		}
+		sort.Strings(names)
+		for _, proto := range []int{4, 6} {
+			for _, a := range names {
+				for _, b := range names {
+					if a != b {
+						vecs = append(vecs, Vec{Plugin: loaderChain, Proto: proto, Args: []string{a, b}})
+						if !r.Quick() && a != "server_id" && b != "server_id" {
+							vecs = append(vecs, Vec{Plugin: loaderChain, Proto: proto, Args: []string{"server_id", a, b}})
+						}
+					}
+				}
+			}
+		}
 	}
 	r.Set("vectors", int64(len(vecs)))
 	spawnAll(r, id, vecs)
